@@ -24,7 +24,7 @@ RULE = ("collections of 1..5 series (equal/unequal length, ndim 1..2, list or ma
         "rational scaling) does not increase, identical series are a fixed point, dba_loop makes <= max_it steps")
 GUARD = "psi, max_step, max_dist off; penalty off for the Python engine (F11)"
 
-SITES = ["py.dba", "c.dba", "c.dba_loop"]
+SITES = ["py.dba", "c.dba", "c.dba_loop", "py.dba_loop"]
 
 
 def gen_cases(rng, tier):
@@ -32,7 +32,7 @@ def gen_cases(rng, tier):
     maxlen = 5 if tier == "quick" else 7
     cases = []
     for k in range(n):
-        site = SITES[k % 3]
+        site = SITES[k % len(SITES)]
         nd = 1 if rng.random() < 0.75 else 2
         ns = rng.randint(1, 5)
         eq = rng.random() < 0.5
@@ -49,7 +49,7 @@ def gen_cases(rng, tier):
         mask = [rng.random() < 0.7 for _ in range(ns)]
         if not any(mask):
             mask[rng.randrange(ns)] = True
-        st = {"window": rng.choice([None, None, 1, 2, 3]), "penalty": None if site == "py.dba" else rng.choice([None, None, 1]),
+        st = {"window": rng.choice([None, None, 1, 2, 3]), "penalty": None if site.startswith("py.") else rng.choice([None, None, 1]),
               "psi": None, "max_step": None, "max_length_diff": None, "inner_dist": "squared euclidean"}
         other = [dtwgen.rand_series(rng, len(s), nd, lo=-2, hi=2) for s in series]
         cases.append({"site": site, "series": series, "c": c, "mask": mask, "ndim": nd, "settings": st,
@@ -170,12 +170,13 @@ def impl_run(case):
             return dtw_barycenter.dba(ss, c, mask=mask, use_c=False, **kw)
         if site == "c.dba":
             return dtw_barycenter.dba(ss, c, mask=mask, use_c=True, **kw)
-        return dtw_barycenter.dba_loop(ss, c, max_it=1, thr=None, mask=mask, use_c=True, **kw)
+        # one step through the loop: the DTW settings have to reach the update
+        return dtw_barycenter.dba_loop(ss, c, max_it=1, thr=None, mask=mask, use_c=(site == "c.dba_loop"), **kw)
     avg = np.asarray(step(s)).reshape(len(case["c"]), nd)
     # unselected series replaced by other data
     mixed = [case["series"][i] if case["mask"][i] else case["other"][i] for i in range(len(case["series"]))]
     avg2 = np.asarray(step(mk(mixed))).reshape(len(case["c"]), nd)
-    res = dtw_barycenter.dba_loop(s, c, max_it=case["max_it"], thr=0.001, mask=mask, use_c=(site != "py.dba"),
+    res = dtw_barycenter.dba_loop(s, c, max_it=case["max_it"], thr=0.001, mask=mask, use_c=site.startswith("c."),
                                   keep_averages=True, **kw)
     return {"avg": avg, "avg_masked": avg2, "loop_steps": len(res[1]), "c_unchanged": bool((c == c_before).all())}
 
@@ -208,7 +209,7 @@ def judge(case, got, exp):
         return {"kind": "identical-series-not-a-fixed-point", "avg": gotl}
     if gotl == want:
         return None
-    if case["site"] == "py.dba":
+    if case["site"].startswith("py."):
         return {"kind": "differs-from-model-mean", "got": gotl, "model": want}
     if exp.get("unique"):
         # every selected series has exactly one optimal warping path: both engines must produce the same update
